@@ -13,7 +13,7 @@ use std::fmt::Write as _;
 use syn::*;
 
 #[derive(Clone, Debug, PartialEq)]
-enum Ty { U8, U32, U64, I32, I64, Bool, W(usize), RMode, Class, F64U, F32U, DecDigits, N, Ord, OptOrd, Hasher, Generic(String), Tuple(Vec<Ty>), Unit, Unknown }
+enum Ty { U8, U32, U64, I32, I64, Bool, W(usize), RMode, Class, F64U, F32U, DecDigits, N, Ord, OptOrd, Hasher, Arr(Box<Ty>, usize), Generic(String), Tuple(Vec<Ty>), Unit, Unknown }
 
 impl Ty {
     fn lean(&self) -> String {
@@ -21,7 +21,7 @@ impl Ty {
             Ty::U8 => "UInt8".into(), Ty::U32 => "UInt32".into(), Ty::U64 => "UInt64".into(), Ty::I32 => "Int32".into(),
             Ty::I64 => "Int64".into(), Ty::Bool => "Bool".into(), Ty::W(n) => format!("U{}", n), Ty::RMode => "RoundingMode".into(), Ty::Class => "ClassTypes".into(),
             Ty::F64U => "F64U".into(), Ty::F32U => "F32U".into(), Ty::DecDigits => "DecDigits".into(), Ty::N => "Nat".into(), Ty::Ord => "Ordering".into(), Ty::OptOrd => "(Option Ordering)".into(),
-            Ty::Hasher => "(List UInt8)".into(), Ty::Generic(g) => format!("{}'", g),
+            Ty::Hasher => "(List UInt8)".into(), Ty::Arr(t, _) => format!("(Array {})", t.lean()), Ty::Generic(g) => format!("{}'", g),
             Ty::Tuple(v) => format!("({})", v.iter().map(|t| t.lean()).collect::<Vec<_>>().join(" × ")),
             Ty::Unit => "Unit".into(), Ty::Unknown => "_".into(),
         }
@@ -74,6 +74,7 @@ fn ty_of_type(t: &Type) -> (Ty, bool) {
     match t {
         Type::Reference(r) => { let (ty, _) = ty_of_type(&r.elem); (ty, r.mutability.is_some()) }
         Type::Paren(p) => ty_of_type(&p.elem),
+        Type::Array(a) => { let (t, _) = ty_of_type(&a.elem); match (t.is_int(), lit_usize(&a.len)) { (true, Some(n)) => (Ty::Arr(Box::new(t), n), false), _ => (Ty::Unknown, false) } }
         Type::Tuple(t) => { if t.elems.is_empty() { (Ty::Unit, false) } else { (Ty::Tuple(t.elems.iter().map(|e| ty_of_type(e).0).collect()), false) } }
         Type::Path(p) => {
             let s = p.path.segments.last().unwrap().ident.to_string();
@@ -86,13 +87,27 @@ fn ty_of_type(t: &Type) -> (Ty, bool) {
                     if inner == Some(Ty::Ord) { Ty::OptOrd } else { Ty::Unknown }
                 } "BID_UINT192" => Ty::W(192), "BID_UINT256" => Ty::W(256),
                 "BID_UINT384" => Ty::W(384), "BID_UINT512" => Ty::W(512), "RoundingMode" => Ty::RMode, "ClassTypes" => Ty::Class,
-                "BID_UI64DOUBLE" => Ty::F64U, "BID_UI32FLOAT" => Ty::F32U, "DEC_DIGITS" => Ty::DecDigits,
+                "BID_UI64DOUBLE" | "f64" => Ty::F64U, "BID_UI32FLOAT" | "f32" => Ty::F32U, "DEC_DIGITS" => Ty::DecDigits,
                 g if g.len() == 1 && g.chars().all(|c| c.is_ascii_uppercase()) => Ty::Generic(g.to_string()),
                 _ => Ty::Unknown,
             };
             (ty, false)
         }
         _ => (Ty::Unknown, false),
+    }
+}
+
+/// value of an expression built from untyped integer literals only
+fn const_eval(e: &Expr) -> Option<i128> {
+    match e {
+        Expr::Lit(ExprLit { lit: Lit::Int(i), .. }) => if i.suffix().is_empty() { i.base10_digits().parse::<i128>().ok() } else { None },
+        Expr::Paren(p) => const_eval(&p.expr),
+        Expr::Binary(b) => {
+            let (l, r) = (const_eval(&b.left)?, const_eval(&b.right)?);
+            match b.op { BinOp::Add(_) => l.checked_add(r), BinOp::Sub(_) => l.checked_sub(r), BinOp::Mul(_) => l.checked_mul(r),
+                BinOp::Shl(_) => if (0..100).contains(&r) { l.checked_shl(r as u32) } else { None }, BinOp::Shr(_) => if (0..127).contains(&r) { Some(l >> r) } else { None }, _ => None }
+        }
+        _ => None,
     }
 }
 
@@ -123,6 +138,14 @@ impl<'a> FnCtx<'a> {
     fn cast(&self, e: &Ex, to: &Ty) -> R<String> {
         if &e.ty == to && !e.untyped_lit { return Ok(e.s.clone()); }
         if let Ty::RMode = to { bail!("cast to RoundingMode") }
+        if matches!(to, Ty::F64U | Ty::F32U) {
+            if !matches!(e.ty, Ty::U64 | Ty::U32 | Ty::U8) { bail!("float conversion from {:?}", e.ty) }
+            return Ok(format!("({}.ofU64 (UInt64.ofInt (toI {})))", to.lean(), paren(&e.s)));
+        }
+        if matches!(e.ty, Ty::F64U | Ty::F32U) {
+            if *to != Ty::U64 { bail!("float cast to {:?}", to) }
+            return Ok(format!("(← {}.toU64 {})", e.ty.lean(), paren(&e.s)));
+        }
         // `u128` is only ever an intermediate for sums/products of 64-bit words: unbounded Nat (cannot wrap there)
         if let Ty::N = to { return Ok(format!("(Int.toNat (toI {}))", paren(&e.s))); }
         match to.of_int() { Some(f) => Ok(format!("({} (toI {}))", f, paren(&e.s))), None => bail!("cast to {:?} of {}", to, e.s) }
@@ -154,6 +177,14 @@ impl<'a> FnCtx<'a> {
                     if ty == Ty::Unknown { Ok(Ex { s: txt, ty, m: false, untyped_lit: true }) } else { Ok(ex(format!("({} : {})", txt, ty.lean()), ty, false)) }
                 }
                 Lit::Bool(b) => Ok(ex(format!("{}", b.value), Ty::Bool, false)),
+                Lit::Float(f) => {
+                    // only integer-valued literals (1.0, 2.0): the value as an exactly converted integer
+                    let txt = f.base10_digits();
+                    let v: f64 = txt.parse().map_err(|_| "float literal".to_string())?;
+                    if v.fract() != 0.0 || v < 0.0 || v > 1e15 { bail!("float literal {}", txt) }
+                    let ty = match f.suffix() { "f32" => Ty::F32U, _ => Ty::F64U };
+                    Ok(Ex { s: format!("({}.ofU64 {})", ty.lean(), v as u64), ty, m: false, untyped_lit: false })
+                }
                 _ => bail!("literal kind"),
             },
             Expr::Path(p) => {
@@ -193,7 +224,8 @@ impl<'a> FnCtx<'a> {
                 let x = self.expr(&c.expr, env)?;
                 let (to, _) = ty_of_type(&c.ty);
                 let s = self.cast(&Ex { untyped_lit: false, s: x.s.clone(), ty: if x.untyped_lit { Ty::Unknown } else { x.ty.clone() }, m: x.m }, &to)?;
-                Ok(ex(s, to, x.m))
+                let mon = x.m || s.contains("←");
+                Ok(ex(s, to, mon))
             }
             Expr::Index(ix) => {
                 if let Some((base, k)) = self.field_index(e) {
@@ -219,12 +251,42 @@ impl<'a> FnCtx<'a> {
                     if let Expr::Path(p) = &*inner.expr {
                         let t = path_str(&p.path);
                         if let Some(tb) = self.cx.tables.get(&t) {
-                            if tb.dims.len() != 2 || tb.elem != Ty::W(128) { bail!("2-D table {} shape", t) }
+                            if tb.dims.len() == 2 && tb.elem == Ty::W(128) {
                             let inner_len = tb.dims[1];
                             let i = self.expr(&inner.index, env)?; let j = self.expr(&ix.index, env)?;
                             let (i_s, j_s) = (self.cast(&i, &Ty::U64)?, self.cast(&j, &Ty::U64)?);
                             self.cx.used_tables.insert(t.clone());
                             return Ok(ex(format!("(← tbl128_2 Dec.Gen.{} {} {} {})", t, inner_len, paren(&i_s), paren(&j_s)), Ty::W(128), true));
+                            }
+                        }
+                    }
+                }
+                // local fixed-size array with a literal index
+                if let Expr::Path(p) = &*ix.expr {
+                    let nme = path_str(&p.path);
+                    if let Some(Ty::Arr(t, n)) = env.get(&nme).cloned() {
+                        let k = lit_usize(&ix.index).ok_or("array index must be a literal")?;
+                        if k >= n { bail!("array index out of range") }
+                        return Ok(ex(format!("{}[{}]!", env.lean(&nme), k), *t, false));
+                    }
+                }
+                // N-dimensional table of scalars: T[i][j]...[k]
+                {
+                    let mut idxs: Vec<&Expr> = Vec::new(); let mut cur: &Expr = e;
+                    while let Expr::Index(x) = cur { idxs.push(&x.index); cur = &x.expr; }
+                    idxs.reverse();
+                    if let Expr::Path(p) = cur {
+                        let t = path_str(&p.path);
+                        if let Some(tb) = self.cx.tables.get(&t) {
+                            if tb.dims.len() == idxs.len() && tb.dims.len() >= 2 && matches!(tb.elem, Ty::U64 | Ty::U32 | Ty::I32 | Ty::U8) {
+                                let (dims, elem) = (tb.dims.clone(), tb.elem.clone());
+                                let mut parts = Vec::new(); let mut m = false;
+                                for i in idxs { let x = self.expr(i, env)?; m |= x.m; parts.push(format!("(UInt64.toNat {})", paren(&self.cast(&x, &Ty::U64)?))); }
+                                let acc = match elem { Ty::U64 => "tbl64", Ty::U32 => "tbl32", Ty::U8 => "tbl8", _ => "tblI32" };
+                                self.cx.used_tables.insert(t.clone());
+                                let _ = m;
+                                return Ok(ex(format!("(← {} Dec.Gen.{} (← flatIdx [{}] [{}]))", acc, t, dims.iter().map(|d| d.to_string()).collect::<Vec<_>>().join(", "), parts.join(", ")), elem, true));
+                            }
                         }
                     }
                 }
@@ -241,12 +303,15 @@ impl<'a> FnCtx<'a> {
                         Ok(ex(s, ts[k].clone(), b.m))
                     }
                     (Member::Named(n), Ty::DecDigits) => { let (f, t) = match n.to_string().as_str() { "digits" => ("digits", Ty::U32), "digits1" => ("digits1", Ty::U32), "threshold_hi" => ("threshold_hi", Ty::U64), "threshold_lo" => ("threshold_lo", Ty::U64), o => bail!("DEC_DIGITS field {}", o) }; Ok(ex(format!("{}.{}", paren(&b.s), f), t, b.m)) }
+                    (Member::Named(n), Ty::F64U) if n == "d" => Ok(ex(paren(&b.s), Ty::F64U, b.m)),
+                    (Member::Named(n), Ty::F32U) if n == "d" => Ok(ex(paren(&b.s), Ty::F32U, b.m)),
                     (Member::Named(n), Ty::F64U) if n == "ui64" => Ok(ex(format!("{}.bits", paren(&b.s)), Ty::U64, b.m)),
                     (Member::Named(n), Ty::F32U) if n == "ui32" => Ok(ex(format!("{}.bits", paren(&b.s)), Ty::U32, b.m)),
                     _ => bail!("field access {}", quote::quote!(#e)),
                 }
             }
             Expr::Binary(b) => {
+                if let Some(v) = const_eval(e) { if v >= 0 { let txt = if v > 9 { format!("0x{:x}", v) } else { format!("{}", v) }; return Ok(Ex { s: txt, ty: Ty::Unknown, m: false, untyped_lit: true }); } }
                 let l = self.expr(&b.left, env)?; let r = self.expr(&b.right, env)?;
                 let m = l.m || r.m;
                 // give an untyped literal the type of the other operand (no reliance on Lean's unification through parentheses)
@@ -259,6 +324,11 @@ impl<'a> FnCtx<'a> {
                     }
                     (l, r)
                 };
+                if matches!(l.ty, Ty::F64U | Ty::F32U) || matches!(r.ty, Ty::F64U | Ty::F32U) {
+                    if l.ty != r.ty { bail!("mixed float operands {:?} {:?}", l.ty, r.ty) }
+                    let f = match b.op { BinOp::Add(_) => "add", BinOp::Mul(_) => "mul", BinOp::Div(_) => "div", _ => bail!("float operator") };
+                    return Ok(ex(format!("(← {}.{} {} {})", l.ty.lean(), f, paren(&l.s), paren(&r.s)), l.ty.clone(), true));
+                }
                 let int_ty = if !l.untyped_lit && l.ty != Ty::Unknown { l.ty.clone() } else { r.ty.clone() };
                 let both_lit = l.untyped_lit && r.untyped_lit;
                 let arith = |op: &str| -> R<Ex> { Ok(Ex { s: format!("({} {} {})", l.s, op, r.s), ty: int_ty.clone(), m, untyped_lit: both_lit }) };
@@ -321,6 +391,7 @@ impl<'a> FnCtx<'a> {
                 let m = mc.method.to_string();
                 if m == "clone" && mc.args.is_empty() { return self.expr(&mc.receiver, env); }
                 if m == "count" { return self.count_while(mc, env); }
+                if m == "sqrt" && mc.args.is_empty() { let x = self.expr(&mc.receiver, env)?; if x.ty != Ty::F64U { bail!("sqrt of {:?}", x.ty) } return Ok(ex(format!("(← F64U.sqrt {})", paren(&x.s)), Ty::F64U, true)); }
                 {
                     let save = self.pre.len();
                     if let Ok(recv) = self.expr(&mc.receiver, env) {
@@ -365,6 +436,11 @@ impl<'a> FnCtx<'a> {
                 let mut parts = Vec::new(); let mut m = false;
                 for e in arr.elems.iter() { let x = self.expr(e, env)?; m |= x.m; parts.push(if x.untyped_lit { format!("({} : UInt64)", x.s) } else { x.s }); }
                 Ok(ex(format!("(⟨{}⟩ : {})", parts.join(", "), ty.lean()), ty, m))
+            }
+            Expr::Repeat(rp) => {
+                let v = self.expr(&rp.expr, env)?; let n = lit_usize(&rp.len).ok_or("array length")?;
+                if !v.ty.is_int() || v.m { bail!("array element") }
+                Ok(ex(format!("#[{}]", vec![v.s.clone(); n].join(", ")), Ty::Arr(Box::new(v.ty.clone()), n), false))
             }
             Expr::If(i) => {
                 // value-producing if: both branches must be single expressions
@@ -430,6 +506,11 @@ impl<'a> FnCtx<'a> {
             Expr::Paren(p) => self.assign_to(&p.expr, rhs, env),
             Expr::Unary(u) if matches!(u.op, UnOp::Deref(_)) => self.assign_to(&u.expr, rhs, env),
             Expr::Path(p) => { let s = path_str(&p.path); if env.contains_key(&s) { Ok(format!("{} := {}", env.lean(&s), rhs)) } else { bail!("assignment to unknown {}", s) } }
+            Expr::Index(ixa) if matches!(&*ixa.expr, Expr::Path(p) if matches!(env.get(&path_str(&p.path)), Some(Ty::Arr(_, _)))) => {
+                let nme = if let Expr::Path(p) = &*ixa.expr { path_str(&p.path) } else { unreachable!() };
+                let k = lit_usize(&ixa.index).ok_or("array index must be a literal")?;
+                Ok(format!("{n} := {n}.set! {k} {rhs}", n = env.lean(&nme), k = k, rhs = paren(rhs)))
+            }
             Expr::Index(_) => {
                 if let Some((base, k)) = self.field_index(lhs) {
                     let name = match strip_deref(&base) { Expr::Path(p) => path_str(&p.path), _ => bail!("assignment to nested field") };
@@ -661,6 +742,18 @@ impl<'a> FnCtx<'a> {
                             return Ok(());
                         }
                         if (base.ty == Ty::F64U && n == "d") || (base.ty == Ty::F32U && n == "d") {
+                            {
+                                let save = self.pre.len();
+                                if let Ok(v) = self.expr(&a.right, env) {
+                                    if v.ty == base.ty {
+                                        let st = self.assign_to(&f.base, &v.s, env)?;
+                                        self.flush(ind, out);
+                                        out.lines.push(format!("{}{}", ind, st));
+                                        return Ok(());
+                                    }
+                                }
+                                self.pre.truncate(save);
+                            }
                             let src = match &*a.right { Expr::Cast(c) => self.expr(&c.expr, env)?, Expr::Paren(p) => match &*p.expr { Expr::Cast(c) => self.expr(&c.expr, env)?, _ => bail!("float store of a non-cast") }, _ => bail!("float store of a non-cast") };
                             if !matches!(src.ty, Ty::U64 | Ty::U32 | Ty::U8) { bail!("float conversion from {:?}", src.ty) }
                             let v = format!("(UInt64.ofInt (toI {}))", paren(&src.s));
@@ -681,6 +774,7 @@ impl<'a> FnCtx<'a> {
                     out.lines.push(format!("{}let {} := {}", ind, tmp, x.s));
                     let nn = t.elems.len();
                     for (k, p) in t.elems.iter().enumerate() {
+                        if matches!(p, Expr::Infer(_)) { continue; }
                         let mut s = tmp.clone(); for _ in 0..k { s = format!("{}.2", s); } if k + 1 < nn { s = format!("{}.1", s); }
                         let st = self.assign_to(p, &s, env)?; out.lines.push(format!("{}{}", ind, st));
                     }
@@ -694,6 +788,14 @@ impl<'a> FnCtx<'a> {
             }
             Expr::Binary(b) if is_assign_op(&b.op) => {
                 let l = self.expr(&b.left, env)?; let r = self.expr(&b.right, env)?;
+                if matches!(l.ty, Ty::F64U | Ty::F32U) {
+                    if l.ty != r.ty { bail!("mixed float operands") }
+                    let f = match b.op { BinOp::AddAssign(_) => "add", BinOp::MulAssign(_) => "mul", BinOp::DivAssign(_) => "div", _ => bail!("float compound operator") };
+                    let st = self.assign_to(&b.left, &format!("(← {}.{} {} {})", l.ty.lean(), f, paren(&l.s), paren(&r.s)), env)?;
+                    self.flush(ind, out);
+                    out.lines.push(format!("{}{}", ind, st));
+                    return Ok(());
+                }
                 let v = match b.op {
                     BinOp::AddAssign(_) => format!("({} + {})", l.s, r.s), BinOp::SubAssign(_) => format!("({} - {})", l.s, r.s),
                     BinOp::MulAssign(_) => format!("({} * {})", l.s, r.s), BinOp::DivAssign(_) => format!("({} / {})", l.s, if r.untyped_lit { format!("({} : {})", r.s, l.ty.lean()) } else { r.s.clone() }),
